@@ -17,6 +17,7 @@ from mirsym.engine import NONE, SOME, OK, It, UNIT, Panic
 from props.graphstub import SymGraph, GP, CID, plist, subset
 
 ID = 'C19'
+TECHNIQUE = 'symbolic execution of rustc MIR (path-forking) + z3 SMT queries per path; commit graph fully symbolic behind abstract index segments; one-node inductive step over ResolvedExpression; violations reported on the solver verdict (private engine; no native replay)'
 CRATES = ['jj-lib']
 NATIVE = None
 NATIVE_CONFIRM = False
